@@ -10,7 +10,7 @@ from harness.core import Prop
 from harness.props import _stream as S
 
 FINALS = ['exists', 'xfail', 'uxsuccess', 'success', 'fail', 'skip']
-ROUTES = [None, ['some', [48]], ['some', [49]], ['some', [48, 47, 49]]]
+ROUTES = [None, ['some', [48]], ['some', [49]], ['some', [48, 47, 49]], ['some', []]]        # the last: the empty route code, not None
 
 
 def ev(tid=None, status=None, tags=None, runnable=True, fname=None, fbytes=None, eof=False, mime=None, route=None, ts=None):
@@ -39,9 +39,9 @@ class C10(Prop):
     id = 'C10'
     budgets = {'quick': 4000, 'thorough': 40000}
     time_limit = {'quick': 60, 'thorough': 600}
-    rule = ('1-2 runs of 0-25 status events over 3 test ids x 4 route codes (None, "0", "1", "0/1") x None/inprogress/6 final statuses/'
+    rule = ('1-2 runs of 0-25 status events over 4 test ids (one of them the empty string) x 5 route codes (None, "", "0", "1", "0/1") x None/inprogress/6 final statuses/'
             '"unknown" (repeated finals, events after a final, ids re-used on other routes) x tag sets (None, empty, 1-2 tags; set or frozenset) '
-            'x 3 file names x chunks (None, empty, 1-3 bytes; ASCII under text types, arbitrary bytes under binary types) x 5 content types / None '
+            'x 4 file names (incl. the empty name) x chunks (None, empty, 1-3 bytes; ASCII under text types, arbitrary bytes under binary types; in 30% of the text runs bytes that are invalid - or only valid once a later chunk completes them - in the declared charset, under the names reason / traceback / log) x 7 content types (two differing only in the letter case of a parameter value) / None; in every other run equal tag sets are one shared object '
             'x timestamps (None or one of 9 instants); 10% events without test id; in 40% of the runs the consumer callback (StreamToDict on_test, '
             'the outcome methods of the extended result) raises at 1-3 hand-overs - at a final status or inside stopTestRun - the driver survives '
             'and repeats stopTestRun until it returns; a real testtools.TestResult behind a second StreamToExtendedDecorator sees every run too '
@@ -51,7 +51,7 @@ class C10(Prop):
     assumptions = ['translator tie (harness/pystream.py): _update_case is symbolically executed, status/_ensure_key/stopTestRun and the StreamToDict/StreamToExtendedDecorator wrappers are matched statement by statement on every run; trusted: the translator, the record primitives set/got_timestamp/got_file/create and the reading of the recognised forms by TTV/Model/ConsumerSrc.lean; trusted normalisations before matching: early return = if/else, tests of parameters in `and` in any order, a popped / converted value bound to a local right before it is handed over, turned-around guards (`if test_id is not None: …`, `if test_status != "exists": …`), popitem() unpacked, chained to_test_case().run(...) - the order of calls (super, hook, decorated, on_test vs. pop) is asserted as written',
                    'content types are opaque tokens: parsing of mime strings (_make_content_type / email) belongs to C16',
 
-                   'text-typed attachments carry bytes valid in their charset (StreamSummary formats failed tests\' details and would raise UnicodeDecodeError otherwise; noted in DESIGN section 0)',
+                   'text-typed attachments may carry bytes that are invalid in their declared charset (30% of the text runs; names incl. reason and traceback); the declared charset itself is always a codec Python knows (an unknown one makes codecs.getincrementaldecoder raise LookupError in the same places: reported, not generated)',
                    'consumer faults are exceptions raised by the callback after it recorded the hand-over; the driver catches them and calls stopTestRun again until it returns normally (what the unchanged code needs in order to report the records still in its table after an exception inside the stopTestRun loop)',
                    'Python dict insertion order / popitem() LIFO order are modelled by an association list',
                    'test ids, tags and file names are drawn from fixed vocabularies (incl. non-ASCII names) and mapped to numbers']
@@ -68,7 +68,7 @@ class C10(Prop):
                 'makes wasSuccessful() false; StreamToExtendedDecorator replays each report of the exists-free stream as one well-formed bracket. '
                 'The hand-written model is tied to the code by a differential check and by status tables re-extracted from the tree on every run.',
         'note': 'trusted: Lean kernel, the model TTV/Model/Stream.lean, the harness and its canonicalisation; content types are opaque tokens (mime parsing is C16); '
-                'dict ordering modelled; text attachments valid in their charset',
+                'dict ordering modelled; declared charsets are known codecs',
         'technique': 'Lean 4 refinement proof (table invariant over all event lists) to a declarative lifetimes specification; executable spec shared with a differential correspondence check',
     }
 
@@ -139,9 +139,15 @@ class C10(Prop):
                 for c in consumers + [real]:
                     c.startTestRun()
                 kws = []
+                shared = {}
                 for e in events:
                     n += 1
-                    kws.append(S.event_kwargs(e, frozen=(n % 3 == 0)))
+                    kw = S.event_kwargs(e, frozen=(n % 3 == 0))
+                    if len(events) % 2 and kw['test_tags'] is not None:
+                        # in every other run equal tag sets are ONE object handed in again and again (a consumer must neither
+                        # write to it nor tell events apart by it); checked unchanged after the run
+                        kw['test_tags'] = shared.setdefault((type(kw['test_tags']), frozenset(kw['test_tags'])), kw['test_tags'])
+                    kws.append(kw)
                 d_raised, d_stops = self.drive(consumers[0], events, kws)
                 for kw in kws:
                     summary.status(**kw)
@@ -159,6 +165,9 @@ class C10(Prop):
                         break
                     except (ValueError, UnicodeDecodeError):
                         pass
+                for (_, content), obj in shared.items():
+                    if set(obj) != set(content):
+                        raise AssertionError('a tag set of the caller was written to')
                 ids = lambda xs: [S.un_test_id((x[0] if isinstance(x, tuple) else x).id()) for x in xs]
                 out.append([list(reports), d_raised, d_stops,
                             [summary.testsRun, ids(summary.errors), ids(summary.failures), ids(summary.skipped),
@@ -169,7 +178,13 @@ class C10(Prop):
             return ['raised', type(e).__name__]
 
     # ----- generators
-    def gen_event(self, rng, binary, ids, routes=(None, None, None, ROUTES[1], ROUTES[2], ROUTES[3]), names=(0, 1, 2, 2, 3)):
+    #: content-type tokens (S.CTS) that are text/* with charset=utf8: bytes can be invalid under them
+    UTF8 = [1, 2, 10]
+    #: bytes for those: a two-byte and a three-byte UTF-8 sequence that may be split over chunks (valid when completed in order, an
+    #: error when truncated or out of order), a byte that is never valid, ASCII
+    UTF8_BYTES = [0xC3, 0xA9, 0xE2, 0x98, 0x83, 0xFF, 65, 10]
+
+    def gen_event(self, rng, binary, ids, routes=(None, None, None, ROUTES[1], ROUTES[2], ROUTES[3]), names=(0, 1, 2, 2, 3), undecodable=False):
         if rng.random() < 0.1:
             tid = None
         else:
@@ -177,6 +192,8 @@ class C10(Prop):
         route = rng.choice(routes)
         r = rng.random()
         status = rng.choice(FINALS) if r < 0.22 else 'inprogress' if r < 0.4 else 'unknown' if r < 0.42 else None
+        if undecodable and r < 0.22:
+            status = rng.choice(['fail', 'xfail', 'skip', 'fail', 'xfail', 'skip', 'success', 'uxsuccess'])
         tags = None
         if rng.random() < 0.35:
             tags = sorted(rng.sample([0, 1, 2], rng.choice([0, 1, 1, 2])))
@@ -188,7 +205,12 @@ class C10(Prop):
             k = rng.choice([None, 0, 1, 1, 2, 3])
             fbytes = None if k is None else [rng.choice(alphabet) for _ in range(k)]
             # (a non-text 'reason' attachment on a skip used to make StreamSummary raise: fixed in /repo 08362b3, now generated)
-            mime = rng.choice([None, 0, 3, 11] if binary else [None, 0, 1, 1, 2, 3, 4, 10])
+            mime = rng.choice([None, 0, 3, 11, 13] if binary else [None, 0, 1, 1, 2, 3, 4, 10, 12])
+            if undecodable and rng.random() < 0.8:
+                # a text type with a charset and chunk bytes that need not be valid in it (a stream from another process can
+                # declare anything): the consumers must still account for the test once
+                mime = rng.choice(self.UTF8 + [1, 4])
+                fbytes = [rng.choice(self.UTF8_BYTES) for _ in range(rng.choice([1, 1, 2, 3]))]
             eof = rng.random() < 0.4
         elif rng.random() < 0.05:
             fbytes = [65]            # bytes without a name: ignored
@@ -199,11 +221,15 @@ class C10(Prop):
         runs = []
         for _ in range(rng.choice([1, 1, 1, 2])):
             binary = rng.random() < 0.3
-            ids = rng.choice([[0], [0, 1], [0, 1, 2]])
+            ids = rng.choice([[0], [0, 1], [0, 1, 2], [0, S.EMPTY_ID], [0, 1, 2, S.EMPTY_ID]])       # token 3: the empty string as test id
             n = rng.choice([0, 1, 2, 3, 5, 8, 12, 18, 25])
-            routes = rng.choice([[None], [None, None, ROUTES[1]], [None, ROUTES[1], ROUTES[3]], [None, None, None, ROUTES[1], ROUTES[2], ROUTES[3]]])
-            names = rng.choice([[2], [1, 2], [0, 2], [0, 1, 2, 2, 3]])
-            events = [self.gen_event(rng, binary, ids, routes, names) for _ in range(n)]
+            routes = rng.choice([[None], [None, None, ROUTES[1]], [None, ROUTES[1], ROUTES[3]], [None, None, None, ROUTES[1], ROUTES[2], ROUTES[3]],
+                                 [None, ROUTES[4]], [None, ROUTES[1], ROUTES[4]]])
+            names = rng.choice([[2], [1, 2], [0, 2], [0, 1, 2, 2, 3], [2, 5], [0, 5]])              # 5: the empty file name
+            undecodable = not binary and rng.random() < 0.3
+            if undecodable:
+                names = rng.choice([[0], [1], [2], [0, 1, 2]])
+            events = [self.gen_event(rng, binary, ids, routes, names, undecodable) for _ in range(n)]
             faults = []
             if rng.random() < 0.4:
                 # the consumer's callback raises at 1-3 hand-overs (some beyond the last one: no effect)
@@ -239,6 +265,18 @@ class C10(Prop):
             for seq in itertools.product(a, repeat=n):
                 for faults in ([0], [1], [0, 1], [2]):
                     yield [[list(seq), faults]]
+        # text attachments whose bytes are invalid (or only valid once completed) in the declared charset, under the names the
+        # summaries treat specially, then every final status
+        d = [ev(0, fname=name, fbytes=bs, mime=1) for name in (0, 1, 2) for bs in ([0xFF, 0xFE], [0xC3])]
+        d += [ev(0, fname=2, fbytes=[0xA9]), ev(0, fname=0, fbytes=[0xA9], mime=4)]
+        d += [ev(0, st) for st in ('fail', 'xfail', 'skip', 'success', 'uxsuccess', 'inprogress')]
+        # falsy but valid: the empty test id, the empty route code (another key than None), the empty file name, an empty tag set,
+        # a zero-length chunk with eof as the only chunk of a file
+        d += [ev(S.EMPTY_ID, 'inprogress', ts=1), ev(S.EMPTY_ID, 'fail', route=ROUTES[4]), ev(0, 'success', tags=[], route=ROUTES[4]),
+              ev(S.EMPTY_ID, fname=5, fbytes=[65], mime=12), ev(0, fname=5, fbytes=[], eof=True, mime=2), ev(S.EMPTY_ID, 'skip', fname=0, fbytes=[], eof=True)]
+        for n in range(1, 4):
+            for seq in itertools.product(d if n < 3 else d[:14], repeat=n):
+                yield [[list(seq), []]]
 
     # ----- evidence
     def stats(self, inp):
